@@ -105,8 +105,8 @@ class Send(Exec):
     """immediate <send> to the own session: target None (external queue) or '#_internal'"""
     kind = 'send'
 
-    def __init__(self, event, internal=False):
-        self.event, self.internal = event, internal
+    def __init__(self, event, internal=False, delay_ms=0):
+        self.event, self.internal, self.delay_ms = event, internal, delay_ms
 
 
 class Assign(Exec):
@@ -279,10 +279,11 @@ class Chart:
             elif x.kind == 'raise':
                 w('%s<raise%s event="%s"/>' % (ind, v, esc(x.event)))
             elif x.kind == 'send':
+                dl = ' delay="%dms"' % x.delay_ms if getattr(x, 'delay_ms', 0) else ''
                 if x.internal:
-                    w('%s<send%s event="%s" target="#_internal"/>' % (ind, v, esc(x.event)))
+                    w('%s<send%s event="%s" target="#_internal"%s/>' % (ind, v, esc(x.event), dl))
                 else:
-                    w('%s<send%s event="%s"/>' % (ind, v, esc(x.event)))
+                    w('%s<send%s event="%s"%s/>' % (ind, v, esc(x.event), dl))
             elif x.kind == 'assign':
                 w('%s<assign%s location="%s" expr="%s"/>' % (ind, v, esc(x.var), expr(x.expr)))
             elif x.kind == 'if':
